@@ -165,6 +165,13 @@ def run(ctx):
         ("custom-exception-uncaught", "定义错：\n    其内容 = “c”\n抛出错：“m”！\n"),
         ("display-many", "（显示：【1，【2，【3】】】、【“a” = 【“b” = 1】】、“t”、真、空、1.5）\n0\n"),
         ("random-untouched", "令甲 = 【】\n令数 = 0\n每当数 < 5：\n    数 = 数 + 1\n    以甲（后增：数 * 数）\n（显示：甲、以甲（逆序）、以甲（合并：【0】））\n0\n"),
+        # in-place number methods on values that were bound WITHOUT a copy (inputs of a method, 得到, literals used directly): whatever they
+        # change belongs to this execution
+        ("incr-on-input-bound-to-literal", "如何加一？\n    输入数\n    以数（自增：1）\n    输出数\n（显示：（加一：7）、（加一：7）、7、7 + 0）\n0\n"),
+        ("incr-on-literal-receiver", "令数 = 0\n每当数 < 3：\n    数 = 数 + 1\n    （显示：以100（自增：1）、以2.5（自减：1）、100）\n0\n"),
+        ("incr-on-yield-name", "如何取？\n    输出42\n（取），得到果\n（显示：果、以{（取）}（自增：1）、（取）、42）\n0\n"),
+        ("literals-only", "（显示：7、0、1、42、100、255、256、2.5、7 + 1、【7，42】）\n0\n"),
+        ("incr-on-predefined", "（显示：以数值（自增：5）、数值）\n0\n"),
         ("file-read-missing", "导入《@文件》\n" + guarded("（读取文件：“/nonexistent/无此文件”）") + "（显示：（试））\n0\n"),
     ]
     ocorpus = [(t, sr) for t, sr in others] + hist
@@ -205,7 +212,7 @@ def run(ctx):
                     "dictionaries over <=3 keys x 2 values x all insertion orders: 为/不为/==//=/包含/寻找 (also nested) must equal contents-only equality in "
                     "each of %d repetitions. (4) JSON parse order, object defaults, nested dictionaries, literals repeating a key, error messages: %d repetitions must be one behaviour. "
                     "(5) the same HTTP request (query parameters / headers whose names differ only in case, shuffled) served %d times through ZnHttpHandler: one answer; "
-                    "the site is modelled as collect-then-stable-sort, whose non-injective-key deviation TLC refutes. (6) history independence: the corpus of (4) plus 15 programs in which a library call "
+                    "the site is modelled as collect-then-stable-sort, whose non-injective-key deviation TLC refutes. (6) history independence: the corpus of (4) plus 20 programs in which a library call "
                     "(JSON generation / parsing, formatting, text methods, file reading) is refused or fails part-way and is followed by calls that work, and programs that end in errors, executed 8 (40) rounds in ONE process, "
                     "every round in another order: per program one outcome, whatever ran before it. (7) multi-file programs: 120 (1200) import digraphs of ZnModule (three quarters of them with a cycle) executed %d times each from their main file: one outcome (result, displayed lines, error code / message / line)"
                     % (len(ev), N, N * 4, N * 2, N),
